@@ -37,3 +37,7 @@ package taskctl
 //@   requires [nonnil] s != nil
 //@   ensures  [returned] $scheduleReturned
 //@   modifies $scheduleReturned, $clock
+
+//@ func interface (github.com/Flowpack/prunner/taskctl.OutputStore).Remove
+//@   ensures [removed] $logsRemoved[jobID]
+//@   modifies $logsRemoved@[jobID]
